@@ -476,6 +476,9 @@ pub fn filter(filter: &Unifiable,
             } // match
         } // while
 
+        // A Nil at the end keeps make_linked_list() from splicing
+        // a last element which is itself a list into the result.
+        if filtered_terms.len() > 0 { filtered_terms.push(Nil); }
         let new_list = make_linked_list(false, filtered_terms);
         return Some(new_list);
     }
